@@ -18,6 +18,9 @@ def gen_jobs(tier, tag):
     for i in range(n_b + n_n):
         benign = i < n_b
         g, info = gen_api.gen_database(r, nasty=0.0 if benign else 0.35, benign_sql=benign)
+        if benign and i % 5 == 2:
+            # operations the library must refuse (wrong table, twice, absent): the DDL must not notice them
+            gen_api.gen_rejected(g, info, r.randint(1, 3))
         k = g.emit(Op(80, info['db']))
         if benign and i % 2 == 1:
             # edit after a first rendering (flags, types, kinds, names ...) and render again: what is read back must follow
@@ -47,17 +50,23 @@ def run(v, tier, st, pr, pid):
         ml = mo.split(';')
         msql = ml[m['sqlop']][3:] if m['sqlop'] < len(ml) and ml[m['sqlop']].startswith('ok ') else None
         ojobs.append((ops[:m['sqlop'] + 1], m['db'], msql))
+        if len(ojobs) % 7 == 3:
+            # the same oracle on a deep copy / a pickle round trip of the database
+            ojobs.append((ops[:m['sqlop'] + 1], m['db'], msql, 'deepcopy' if len(ojobs) % 2 else 'pickle'))
     ctx = mp.get_context('fork')
     with ctx.Pool(NPROC) as pool:
         outs = pool.map(sqloracle.check_db, ojobs, chunksize=max(1, len(ojobs) // (NPROC * 8)))
     kf = {f['id']: f for f in load_known_findings()['findings'] if f['property'] == pid}
     fails = []
-    stats = {'oracle_databases': len(outs), 'read_errors': 0, 'd2_instances': 0, 'order_violations_equal_to_model': 0,
+    stats = {'oracle_databases': len(outs), 'copies_checked': 0, 'read_errors': 0, 'd2_instances': 0, 'order_violations_equal_to_model': 0,
              'with_inline_fk_edges': 0, 'statements_read': 0}
-    for (ops, dbs, _), o in zip(ojobs, outs):
+    stats['copies_checked'] = sum(1 for j in ojobs if len(j) > 3)
+    for j_, o in zip(ojobs, outs):
+        ops, dbs = j_[0], j_[1]
+        variant = j_[3] if len(j_) > 3 else None
         stats['statements_read'] += o['nstmts']
         stats['with_inline_fk_edges'] += 1 if o['has_inline'] else 0
-        script = [repr(x) for x in ops]
+        script = [repr(x) for x in ops] + (['<then %s of the database, original dropped>' % variant] if variant else [])
         if o['read_error']:
             stats['read_errors'] += 1
             if pid == 'C03':
@@ -80,13 +89,35 @@ def run(v, tier, st, pr, pid):
             if not o['perm_ok']:
                 fails.append({'cause': 'oracle', 'clause': 'CREATE TABLE statements are not a permutation of the tables',
                               'input': {'kind': 'script', 'ops': script}})
-            if o['order_violation']:
-                if o['order_equals_model'] and 'D1' in kf:
+            viol = o['order_violation'] or o.get('text_violation')
+            if viol:
+                same = (o['order_equals_model'] if o['order_violation'] else True) and (o.get('text_equals_model') if o.get('text_violation') else True)
+                if same and 'D1' in kf:
                     stats['order_violations_equal_to_model'] += 1
                     v.known_finding('D1', kf['D1']['what'])
                 else:
                     fails.append({'cause': 'oracle', 'clause': 'a table with an inline FOREIGN KEY is created before the table it references (and not as the pinned model orders them)',
-                                  'input': {'kind': 'script', 'ops': script}, 'detail': str(o['order_violation'])})
+                                  'input': {'kind': 'script', 'ops': script}, 'detail': str(viol)})
+    # document level: parse a generated document, read its DDL back, compare with the statement list computed from a
+    # database built through the API from the document's abstract description
+    if pid in ('C03', 'C04'):
+        import docsql
+        djobs = docsql.gen_jobs(400 if tier == 'quick' else 8000, 'docsql-' + pid)
+        with ctx.Pool(NPROC) as pool:
+            douts = pool.map(docsql.check_doc, djobs, chunksize=max(1, len(djobs) // (NPROC * 8)))
+        stats['documents_read_back'] = sum(1 for o in douts if 'skip' not in o)
+        skips = {}
+        for (text, _), o in zip(djobs, douts):
+            if 'skip' in o:
+                skips[o['skip']] = skips.get(o['skip'], 0) + 1
+                continue
+            for prop, desc in o['diffs']:
+                if prop == pid:
+                    fails.append({'cause': 'oracle', 'clause': 'DDL of a parsed document differs from the statement list the document declares',
+                                  'input': {'kind': 'document', 'text_hex': hexs(text), 'text': text}, 'detail': desc})
+        stats['documents_skipped'] = skips
+        if pid == 'C03' and 'D38' in kf and docsql.witness_d38():
+            v.known_finding('D38', kf['D38']['what'])
     fails.sort(key=lambda f: len(str(f['input'])))
     v.coverage.update(stats)
     total = verdicts.conclude(v, pr, st, {'render': stream_script.strip(res)}, fails)
